@@ -2,7 +2,8 @@
 (* C06 driver.  Case forms (harness/src/bin/pipe.rs):
      P <hex source> [tags]                                   single file named p.asm
      F <hex name> <hex bytes> ; ... ; ROOT <hex name> [tags]   project
-   tags: VALID | MUT | EXPECT-DIAG | CLASS <name> | POS <hex file> <line> <col>   (line, col decimal)
+   tags: VALID | MUT | EXPECT-DIAG | ILLTYPED | CLASS <name> | POS <hex file> <line> <col>   (line, col decimal)
+         (ILLTYPED: a register inside the arithmetic of an instruction operand; no diagnostic is demanded, the generic clauses are)
    impl: status=<panic|success|failure|close-error> diags=<class@hexfile:line:col,...|-> regions=<...>
    impl: dbg=<0|1> status=... (see harness/src/projrun.rs); the extracted Context model (Asm/CtxModel.pipeline_gen) is run on the
    same project and compared (status, diagnostics class@file:line:col in push order, regions) -> DISAGREE.
@@ -62,7 +63,7 @@ let () = run (fun case impl ->
   let ds = match field impl "diags" with "-" -> [] | s -> Stdlib.List.map parse_diag (Stdlib.String.split_on_char ',' s) in
   let expect = Stdlib.List.mem "EXPECT-DIAG" tags in
   let pos = find_pos tags in
-  let family = if expect then "invalid." ^ find_class tags else if Stdlib.List.mem "MUT" tags then "bytes" else if Stdlib.List.mem "VALID" tags then "valid" else "other" in
+  let family = if expect then "invalid." ^ find_class tags else if Stdlib.List.mem "ILLTYPED" tags then "illtyped" else if Stdlib.List.mem "MUT" tags then "bytes" else if Stdlib.List.mem "VALID" tags then "valid" else "other" in
   count ("family." ^ family ^ (if Stdlib.List.length files > 1 then ".project" else ""));
   count ("status." ^ field impl "status");
   if pos <> None then count "position_checked";
